@@ -22,8 +22,14 @@ def main():
             out.append({"kind": o.kind, "msg": o.msg.split("\n")[0][:120]})
             continue
         try:
+            from nmfu_api import nmfu
+            import re
+            # the resolved configuration, and the emitted text with state numbers and addresses blanked
+            # (numbering may legitimately follow hash order; everything else is a function of source and options)
+            flags = sorted(f.name for f in nmfu.ProgramFlag if nmfu.ProgramData.do(f))
+            api = sorted(set(re.findall(r"\b[A-Za-z_]+_hook\b|\bstate->[A-Za-z_]+_hook\b", o.source)))
             out.append({"kind": "ok", "machine": export_machine(o.dctx), "nstates": len(o.dctx.dfa.states),
-                        "source_len": len(o.source)})
+                        "source_len": len(o.source), "flags": flags, "hook_refs": api, "header": o.header})
         except Unsupported as e:
             out.append({"kind": "unsupported", "msg": str(e)})
     json.dump(out, sys.stdout)
